@@ -1601,7 +1601,7 @@ def run(ctx: Ctx):
             run_history(ctx, drv, hist + json.loads(json.dumps(bat)), tmp)
             ctx.traces += 1
         # (b) random histories
-        for _ in range(ctx.budget(2000, 22000)):
+        for _ in range(ctx.budget(2000, 18000)):
             n = rng.choice([1, 2, 3, 5, 8, 12, 20, 30])
             hist = gen_history(rng, n)
             muts = [op for op in hist if op["op"] in MUTATING]
@@ -1625,7 +1625,7 @@ def run(ctx: Ctx):
             run_history(ctx, drv, hist, tmp)
             ctx.traces += 1
         # (d) variables along the fallback chain
-        for _ in range(ctx.budget(350, 8000)):
+        for _ in range(ctx.budget(350, 6000)):
             hist = gen_vars_history(rng)
             ctx.case({"digest": common.digest(hist), "vars": len(hist)},
                      nontrivial=any(op["op"] in "LK" and op.get("on") for op in hist))
